@@ -31,9 +31,8 @@ pub struct Golden {
 }
 
 fn is_update_golden() -> bool {
-    !std::env::var("UPDATE_GOLDEN")
-        .unwrap_or_default()
-        .is_empty()
+    // var_os: a non-empty value that is not valid Unicode still counts as set.
+    std::env::var_os("UPDATE_GOLDEN").is_some_and(|v| !v.is_empty())
 }
 
 impl Golden {
